@@ -28,6 +28,8 @@ def _grammar(name):
         return (LEAVES_FULL + ('FORK0', 'FORK1', 'FORK2'), ONE_FULL, TWO_FULL)
     if name == 'wit':      # adversarial witness family: full grammar + cache writes, call-budget spending, stack drop
         return (LEAVES_WIT, ONE_FULL, TWO_FULL)
+    if name == 'rec':      # data-bounded recursion: guarded self-call (budget in cache register r), failures, handlers
+        return (('M', 'FAIL', 'RCALL0', 'RETURN'), ('DEF0', 'IFT', 'LOOP1', 'EVAL'), ('TRY',))
     return (LEAVES_SKEL, ONE_SKEL, TWO_SKEL)
 
 
@@ -130,6 +132,18 @@ def blk(code):
 
 KEY_V = b'\x01v'     # len-prefixed cache key 'v'
 KEY_C = b'\x01c'
+KEY_R = b'\x01r'
+REC_VARIANTS = ((1, 'call'), (2, 'call'), (1, 'try'), (2, 'try'))
+
+
+def render_rec(p, variant=(2, 'call'), first_marker=0x10):
+    """program of the 'rec' grammar: call budget in register r, the program, then CALL0 (bare, or inside a
+    TRY so that the state after a failed call is observable)"""
+    budget, tail = variant
+    call = op('CALL') + b'\x00'
+    if tail == 'try':
+        call = op('TRY_EXCEPT') + blk(call) + blk(b'')
+    return op('PUSH0') + bytes([budget]) + op('WRITE_CACHE') + KEY_R + b'\x01' + render(p, first_marker) + call
 
 
 class Render:
@@ -164,6 +178,11 @@ class Render:
             return op('CALL') + b'\x00'
         if k == 'CALL1':
             return op('CALL') + b'\x01'
+        if k == 'RCALL0':
+            # if r > 0: r -= 1; CALL 0   (recursion that ends without touching any limit)
+            dec = op('READ_CACHE') + KEY_R + op('PUSH0') + b'\x01' + op('SWAP2') + op('SUBTRACT_INTS') + b'\x02' \
+                + op('WRITE_CACHE') + KEY_R + b'\x01'
+            return op('READ_CACHE') + KEY_R + op('IF') + blk(dec + op('CALL') + b'\x00')
         if k == 'SETV':
             return self.marker() + op('WRITE_CACHE') + KEY_V + b'\x01'
         if k == 'GETV':
@@ -245,3 +264,27 @@ def chain_progs(maxdepth):
                         st = (k, inner)
                     inner = (('M',), st, ('M',))
                 yield inner
+
+
+# ------------------------------------------------------------------ malformed byte strings derived from CTRL programs
+DELTAS = (1, 255, 200)
+
+
+def malformed(nmax, grammar, shard=0, nshards=1, deltas=DELTAS, first_marker=0x10):
+    """for every program with <= nmax nodes: every strict byte-prefix of its bytecode and every single-byte
+    perturbation (byte + delta mod 256): truncated operands and bodies, over- and under-declared block lengths
+    at every nesting level, replaced opcodes. Yields (program, kind, position, bytes)."""
+    for p in progs_upto(nmax, grammar, shard, nshards):
+        b = render(p, first_marker)
+        seen = {b}
+        for cut in range(1, len(b)):
+            c = b[:cut]
+            if c not in seen:
+                seen.add(c)
+                yield (p, 'prefix', cut, c)
+        for i in range(len(b)):
+            for d in deltas:
+                c = b[:i] + bytes([(b[i] + d) & 0xff]) + b[i + 1:]
+                if c not in seen:
+                    seen.add(c)
+                    yield (p, 'byte+%d' % d, i, c)
